@@ -246,6 +246,7 @@ func init() {
 			panic(targetPanic{msg: "sync: unlock of unlocked mutex", pos: m.posString(pos)})
 		}
 		st.locked = false
+		m.syncAfter(fr)
 		return nil
 	}
 	reg("(*sync.Mutex).Lock", lock)
@@ -277,6 +278,7 @@ func init() {
 			panic(targetPanic{msg: "sync: RUnlock of unlocked RWMutex", pos: m.posString(pos)})
 		}
 		st.readers--
+		m.syncAfter(fr)
 		return nil
 	})
 	reg("(*sync.Once).Do", func(m *Machine, fr *frame, pos token.Pos, _ *ssa.Function, a []Value) Value {
@@ -315,6 +317,7 @@ func init() {
 		if st.n < 0 {
 			panic(targetPanic{msg: "sync: negative WaitGroup counter", pos: m.posString(pos)})
 		}
+		m.syncAfter(fr)
 		return nil
 	})
 	reg("(*sync.WaitGroup).Wait", func(m *Machine, fr *frame, pos token.Pos, _ *ssa.Function, a []Value) Value {
@@ -344,6 +347,7 @@ func init() {
 			st.waiters[0].woken = true
 			st.waiters = st.waiters[1:]
 		}
+		m.syncAfter(fr)
 		return nil
 	})
 	reg("(*sync.Cond).Broadcast", func(m *Machine, fr *frame, pos token.Pos, _ *ssa.Function, a []Value) Value {
@@ -353,6 +357,7 @@ func init() {
 			w.woken = true
 		}
 		st.waiters = nil
+		m.syncAfter(fr)
 		return nil
 	})
 
@@ -366,6 +371,7 @@ func init() {
 		reg(base+"Store", func(m *Machine, fr *frame, _ token.Pos, _ *ssa.Function, a []Value) Value {
 			m.syncPoint(fr)
 			*m.atomicCell(a[0]) = a[1]
+			m.syncAfter(fr)
 			return nil
 		})
 		reg(base+"Add", func(m *Machine, fr *frame, _ token.Pos, _ *ssa.Function, a []Value) Value {
@@ -401,6 +407,7 @@ func init() {
 	reg("(*sync/atomic.Bool).Store", func(m *Machine, fr *frame, _ token.Pos, _ *ssa.Function, a []Value) Value {
 		m.syncPoint(fr)
 		*m.atomicCell(a[0]) = m.C.Ite(a[1].(*smt.Term), m.C.BV(1, 32), m.C.BV(0, 32))
+		m.syncAfter(fr)
 		return nil
 	})
 	reg("(*sync/atomic.Bool).CompareAndSwap", func(m *Machine, fr *frame, _ token.Pos, _ *ssa.Function, a []Value) Value {
@@ -421,6 +428,7 @@ func init() {
 	reg("(*sync/atomic.Pointer).Store", func(m *Machine, fr *frame, _ token.Pos, _ *ssa.Function, a []Value) Value {
 		m.syncPoint(fr)
 		*m.lastField(a[0]) = a[1]
+		m.syncAfter(fr)
 		return nil
 	})
 	reg("(*sync/atomic.Pointer).Swap", func(m *Machine, fr *frame, _ token.Pos, _ *ssa.Function, a []Value) Value {
@@ -450,6 +458,7 @@ func init() {
 			panic(targetPanic{msg: "sync/atomic: store of nil value into Value", pos: m.posString(pos)})
 		}
 		*m.lastField(a[0]) = a[1]
+		m.syncAfter(fr)
 		return nil
 	})
 	for _, w := range []string{"Int32", "Uint32", "Int64", "Uint64"} {
